@@ -51,7 +51,7 @@ static std::string printed(const F& f)
 static std::string ticks_or_now(Tickval::ticks t)
 {
 	const Tickval::ticks now(Tickval(true).get_ticks());
-	if (t <= now && now - t < 5 * Tickval::second)
+	if (t <= now && t >= now - 5 * Tickval::second)
 		return "NOW";
 	return std::to_string(t);
 }
